@@ -142,3 +142,24 @@ Print Assumptions C20_speculative_length_nested.
 Example C20_speculative_length_example :
   finish_spec ([8; 1] ++ [0] ++ repeat 7 200) (repeat 255 9) 2 = [8; 1] ++ [200; 1] ++ repeat 7 200.
 Proof. vm_compute. reflexivity. Qed.
+
+(* ================================================================== (G) kind predicates from the Go source *)
+(* proto/type.go NeedVarint / IsInt / IsPacked / TypeToKind against the models' kind tables (ProtoMsg.wt_of_kind, J2P.is_int_kind) *)
+From DG Require ProtoMsg J2P Gen_protokind Check20g GenProtokindProofs.
+
+Theorem C20_kind_predicates_from_source :
+  (forall k, Check20g.model_kind k = true -> Type_NeedVarint k = (ProtoMsg.wt_of_kind k =? 0)) /\
+  (forall t, 0 <= t < 256 -> Type_IsInt t = J2P.is_int_kind t) /\
+  (forall k, Check20g.model_kind k = true -> Kind2Wire k = ProtoMsg.wt_of_kind k).
+Proof.
+  split; [exact GenProtokindProofs.Type_NeedVarint_is_wt0|]. split; [exact GenProtokindProofs.Type_IsInt_is_int_kind|].
+  intros k H. exact (proj2 (GenProtokindProofs.Kind2Wire_is_wt_of_kind k H)).
+Qed.
+Print Assumptions C20_kind_predicates_from_source.
+
+Theorem C20_TypeToKind_from_source :
+  (forall k, Check20g.model_kind k = true -> Gen_protokind.Type_TypeToKind k = Some k) /\
+  Gen_protokind.Type_TypeToKind 20 = Some 11 /\ Gen_protokind.Type_TypeToKind 0 = Some 0 /\ Gen_protokind.Type_TypeToKind 255 = Some 0 /\
+  Gen_protokind.Type_TypeToKind 19 = None.
+Proof. exact GenProtokindProofs.Type_TypeToKind_spec. Qed.
+Print Assumptions C20_TypeToKind_from_source.
